@@ -30,3 +30,7 @@ check("C20", "exploration", "Hypothesis enum definitions and field values + cano
       "Generated Enum definitions (negatives, gaps, aliases) are checked for canonical identity on every lookup path, copy/pickle behaviour, openness and immutability; generated int32 numbers are pushed through every field position of plugin-generated enums and must survive binary and JSON round trips (reference decoder cross-checks the wire form).",
       "Samples definitions and numbers; plugin-generated enums are the two corpus enums (grammar-generated enums are covered under C03).",
       "DESIGN.md 3/C20")
+check("C08", "exploration", "Hypothesis (schema pair, value, unknown-record insertion) + round-trip / byte-containment oracle",
+      "Generated (newer message, deleted-field subset at top level and inside nested types, value) pairs are passed through an older reader/writer built with the public field API and read back with the newer schema and the reference; generated unknown records of all four wire types are interleaved at generated positions and must be re-emitted byte-for-byte without disturbing known fields.",
+      "Older schemas are synthesised from the plugin-generated classes with the public field API; the reference decoder guards every interleaved encoding.",
+      "DESIGN.md 3/C08")
